@@ -401,7 +401,8 @@ impl Scenario for ChClose {
         let mut v = Vec::new();
         for n in [1u16, 2, 3] {
             // idleclose: the first call made on the closed channel is Channel::close itself
-            for state in ["idle", "inflight", "halfcontent", "consumers", "crossing", "idleclose"] {
+            // idlelisten / idleconfirms: ... is the registration of a return / confirm listener
+            for state in ["idle", "inflight", "halfcontent", "consumers", "crossing", "idleclose", "idlelisten", "idleconfirms"] {
                 if tier != "thorough" && !(n == 1 || (n == 2 && state == "inflight") || (n == 3 && state == "idle")) {
                     continue;
                 }
@@ -515,7 +516,7 @@ impl Scenario for ChClose {
                                 ctx.log(format!("delete -> {:?}", r.map_err(|e| err_name(&e))));
                             } else if state == "crossing" {
                                 // the client closes the channel itself; the server's close may cross it
-                            } else if state == "idle" || state == "idleclose" {
+                            } else if state == "idle" || state == "idleclose" || state == "idlelisten" || state == "idleconfirms" {
                                 // virtual time only passes once nothing else can happen, i.e.
                                 // after the server's close has been pushed and handled
                                 ctx.sleep_ms(10);
@@ -527,7 +528,11 @@ impl Scenario for ChClose {
                             }
                             // next calls after the close
                             if state != "crossing" && state != "idleclose" {
-                                let r = ch.qos(0, 1, false);
+                                let r = match state.as_str() {
+                                    "idlelisten" => ch.listen_for_returns().map(|_| ()),
+                                    "idleconfirms" => ch.listen_for_publisher_confirms().map(|_| ()),
+                                    _ => ch.qos(0, 1, false),
+                                };
                                 ctx.log(format!("next -> {:?}", r.map_err(|e| err_name(&e))));
                                 let r = ch.qos(0, 1, false);
                                 ctx.log(format!("later -> {:?}", r.map_err(|e| err_name(&e))));
@@ -626,7 +631,7 @@ impl Scenario for ChClose {
                     }
                     results.insert(0, ("purge".to_string(), got.replace('"', "")));
                 }
-                let after_marker = state != "idle" || log.iter().any(|l| l == "AFTER");
+                let after_marker = !state.starts_with("idle") || log.iter().any(|l| l == "AFTER");
                 let first_err = results.iter().position(|(_, r)| r.starts_with("Err"));
                 match first_err {
                     None => {
